@@ -46,14 +46,15 @@ def table(kind, M, S):
     return rows
 
 
-def comm(D, h, N, real_t, kind, ncomp):
-    key = (D, h, N, real_t, kind, ncomp)
+def comm(D, h, N, real_t, kind, ncomp, sfrac=0.5):
+    """sfrac: coordinate of the centre of cell 0 in units of h (eul_grid_coord_shift = sfrac * h; the simulators use 1/2)."""
+    key = (D, h, N, real_t, kind, ncomp, sfrac)
     if key not in _COMM:
         if D == 2:
             from sopht.numeric.immersed_boundary_ops import EulerianLagrangianGridCommunicator2D as C
         else:
             from sopht.numeric.immersed_boundary_ops import EulerianLagrangianGridCommunicator3D as C
-        _COMM[key] = C(dx=real_t(h), eul_grid_coord_shift=real_t(h / 2), num_lag_nodes=N, interp_kernel_width=2,
+        _COMM[key] = C(dx=real_t(h), eul_grid_coord_shift=real_t(sfrac * h), num_lag_nodes=N, interp_kernel_width=2,
                        real_t=real_t, n_components=ncomp, interp_kernel_type=kind)
     return _COMM[key]
 
